@@ -588,6 +588,45 @@ def random_recipe(rng, *, max_n=40, shapes=None, geoms=None, numbering=None, typ
     }
 
 
+SWEEP_SMALL = [255, 256, 257, 511, 512, 513, 1023, 1024, 1025, 1026, 2047, 2048, 2049, 2050, 4095,
+               4096, 4097, 8191, 8192, 8193]
+SWEEP_LARGE = [16384, 32767, 32768, 32769, 46341, 50000, 65535, 65536, 65537, 70000, 100000]
+
+
+def sweep_recipes(ctx, *, max_small=8193, large=0, shapes=None, numbering=None, extras=0,
+                  geoms=None):
+    """Recipes at sizes uniformly random cases practically never have: on and next to powers of two
+    / typical block sizes (255 .. 8193), and -- ``large`` of them per run in the quick tier, all in
+    the thorough tier -- big branched trees (16384 .. 100000 nodes: 16- and 32-bit products of ids
+    and sizes overflow there).  This shard's share only."""
+    sizes = [n for n in SWEEP_SMALL if n <= max_small]
+    if large:
+        # quick tier: always one tree beyond 65 536 nodes, the others rotate with the seed
+        big = SWEEP_LARGE if not ctx.quick else (
+            [70000 if ctx.seed % 2 == 0 else 100000]
+            + [SWEEP_LARGE[(ctx.seed * 3 + 7 * j + 4) % (len(SWEEP_LARGE) - 2)]
+               for j in range(large - 1)])
+        sizes += [n for n in big if n not in sizes]
+    shapes = shapes or ["recursive", "binary", "neuron", "caterpillar", "bamboo"]
+    out = []
+    for j, n in enumerate(sizes):
+        if j % ctx.nshards != ctx.shard:
+            continue
+        out.append({"shape": shapes[(j + ctx.seed) % len(shapes)], "n": int(n),
+                    "numbering": numbering or ("perm" if (j + ctx.seed) % 3 else "sorted"),
+                    "geom": (geoms or ["growth"])[(j + ctx.seed) % len(geoms or ["growth"])],
+                    "types": "soma", "extras": int(extras),
+                    "seed": int(derive_seed_(ctx.seed, j, n))})
+    return out
+
+
+def derive_seed_(*parts) -> int:
+    import hashlib
+
+    h = hashlib.sha256("|".join(str(p) for p in parts).encode()).digest()
+    return int.from_bytes(h[:4], "little") % (2**31 - 1)
+
+
 def size_ladder(ctx, k: int, small=12, mid=60, large=300):
     """Mostly small trees first (so first violations are small), some larger ones."""
     u = ctx.rng.random()
